@@ -20,12 +20,14 @@ Lines == ndJsonDeserialize(IOEnv.TRACE_FILE)
 TwoImages == <<"a", "b">>
 TwoLocs == {"P", "Q"}
 
-VARIABLES l, tid, bad, badLine
-tvars == <<l, tid, bad, badLine>>
+VARIABLES l, tid, bad, badLine,
+          needSync,   \* the cells logged with the last line differ from the Design's: adopt them before going on
+          ndrift      \* number of such resynchronisations in this trace (Design drift, informational)
+tvars == <<l, tid, bad, badLine, needSync, ndrift>>
 
-Verdict == PrintT(<<"VERDICT", tid, IF bad = "" THEN "accepted" ELSE "rejected", badLine, bad>>)
+Verdict == PrintT(<<"VERDICT", tid, IF bad = "" THEN "accepted" ELSE "rejected", badLine, bad, ndrift>>)
 
-TInit == /\ Init /\ l = 2 /\ Lines[1].e = "hdr" /\ tid = Lines[1].tid /\ bad = "" /\ badLine = 0
+TInit == /\ Init /\ l = 2 /\ Lines[1].e = "hdr" /\ tid = Lines[1].tid /\ bad = "" /\ badLine = 0 /\ needSync = FALSE /\ ndrift = 0
 
 Ev == Lines[l]
 Img(s) == s                                    \* image ids are logged as "a" / "b"
@@ -47,14 +49,12 @@ JudgeOpen(ev, la, loc2, adj2) ==
     ELSE IF la.outcome = "tree" /\ ~la.uc /\ ev.consulted THEN "cache-consulted-when-disabled"
     ELSE IF la.outcome = "tree" /\ la.cc /\ ev.outcome = "tree" /\ \E m \in ImageSet : la.src[m] = "parse" /\ ev.cells["local"][la.loc][m] # "full" /\ cacheOK
          THEN "not-repaired"
-    ELSE IF ~CellsMatch(ev, loc2, adj2) THEN "cells"
     ELSE ""
 JudgeLoad(ev, la) == IF la.judged /\ ev.outcome # "equal" THEN "load:" \o ev.outcome ELSE ""
 JudgeCli(ev, la, loc2, adj2) ==
     IF la.outcome = "ok" /\ ev.outcome # "ok" THEN "cli-failed"
     ELSE IF ev.prod_changed THEN "product-modified"
     ELSE IF ev.cache_foreign THEN "cache-unasked"
-    ELSE IF la.outcome # ev.outcome \/ ~CellsMatch(ev, loc2, adj2) THEN "cells"
     ELSE ""
 JudgeQuiet(ev) == IF ev.prod_changed THEN "product-modified" ELSE IF ev.cache_foreign THEN "cache-unasked" ELSE ""
 
@@ -72,6 +72,7 @@ Explain ==
       [] ev.e = "delete"    -> CellSet(ev.loc, ev.img, ev.cell, Absent)
       [] ev.e = "tear"      -> CellSet(ev.loc, ev.img, ev.cell, Torn)
       [] ev.e = "cachedir"  -> CacheDir(ev.usable)
+      [] ev.e = "purge"     -> Purge(ev.scope)
       [] OTHER -> FALSE
 
 Clause(ev, la, loc2, adj2) ==
@@ -81,27 +82,42 @@ Clause(ev, la, loc2, adj2) ==
       [] ev.e \in {"mutate", "copy", "drop"} -> JudgeQuiet(ev)
       [] OTHER -> ""
 
+HasCells(ev) == ev.e \in {"open", "cli"}
 Consume ==
+    /\ ~needSync
     /\ l <= Len(Lines) /\ Ev.e # "hdr"
     /\ ENABLED Explain
     /\ Explain
     /\ LET c == Clause(Ev, last', local', adjacent') IN
        IF bad = "" /\ c # "" THEN bad' = c /\ badLine' = l ELSE UNCHANGED <<bad, badLine>>
-    /\ l' = l + 1 /\ UNCHANGED tid
+    /\ needSync' = (HasCells(Ev) /\ ~CellsMatch(Ev, local', adjacent'))
+    /\ l' = l + 1 /\ UNCHANGED <<tid, ndrift>>
+\* The cells are LOGGED state: where the real cache state left the Design (the library wrote or removed an index on its own, the CLI
+\* indexed a shortened image, ...) the logged state is adopted and validation goes on.  A cell that appeared unasked is marked so.
+Adopt(obs, cur, v) == IF obs = cur.st THEN cur ELSE IF obs = "full" THEN Unasked(v) ELSE IF obs = "torn" THEN Torn ELSE Absent
+Resync ==
+    /\ needSync
+    /\ LET ev == Lines[l - 1] IN
+         /\ local' = [x \in Locs |-> [m \in ImageSet |-> Adopt(ev.cells["local"][x][m], local[x][m], store[x].ver)]]
+         /\ adjacent' = [x \in Locs |-> [m \in ImageSet |-> Adopt(ev.cells["adjacent"][x][m], adjacent[x][m], store[x].ver)]]
+    /\ needSync' = FALSE /\ ndrift' = ndrift + 1
+    /\ UNCHANGED <<store, cacheOK, tree, ops, last, l, tid, bad, badLine>>
 \* a line the specification cannot take at all (only possible after an earlier divergence, or a driver error)
 Stuck ==
+    /\ ~needSync
     /\ l <= Len(Lines) /\ Ev.e # "hdr"
     /\ ~ENABLED Explain
     /\ (IF bad = "" THEN bad' = "not-enabled:" \o Ev.e /\ badLine' = l ELSE UNCHANGED <<bad, badLine>>)
-    /\ l' = l + 1 /\ UNCHANGED <<tid, vars>>
+    /\ l' = l + 1 /\ UNCHANGED <<tid, vars, needSync, ndrift>>
 NewTrace ==
+    /\ ~needSync
     /\ l <= Len(Lines) /\ Ev.e = "hdr" /\ Verdict
-    /\ tid' = Ev.tid /\ bad' = "" /\ badLine' = 0 /\ l' = l + 1
+    /\ tid' = Ev.tid /\ bad' = "" /\ badLine' = 0 /\ l' = l + 1 /\ needSync' = FALSE /\ ndrift' = 0
     /\ store' = [x \in Locs |-> [ver |-> 0, dmg |-> [f \in Files |-> "ok"]]]
     /\ local' = [x \in Locs |-> [m \in ImageSet |-> Absent]] /\ adjacent' = [x \in Locs |-> [m \in ImageSet |-> Absent]]
     /\ cacheOK' = TRUE /\ tree' = [t \in Slots |-> NoTree] /\ ops' = 0 /\ last' = Quiet
-Fin == /\ l = Len(Lines) + 1 /\ Verdict /\ l' = l + 1 /\ UNCHANGED <<tid, bad, badLine, vars>>
+Fin == /\ ~needSync /\ l = Len(Lines) + 1 /\ Verdict /\ l' = l + 1 /\ UNCHANGED <<tid, bad, badLine, vars, needSync, ndrift>>
 
-TNext == Consume \/ Stuck \/ NewTrace \/ Fin
+TNext == Consume \/ Resync \/ Stuck \/ NewTrace \/ Fin
 TSpec == TInit /\ [][TNext]_<<vars, tvars>>
 =============================================================================
